@@ -1,11 +1,599 @@
-//! DFT-domain part of the registry (C07 family).
-use crate::env::Env;
-use crate::ops::{HalBackend, OpCase, OpInfo};
+//! DFT-domain part of the registry (C07 family): forward/inverse transforms,
+//! transform-domain arithmetic, svp, vmp and bivariate convolution.
+//!
+//! Transform-domain *inputs* are produced from generated coefficient vectors with the
+//! library's own forward transform; the coefficient sources are recorded in
+//! `Env::srcs` so that the model can compute the expected integer result.  Outputs in
+//! the transform domain are brought back with the library's inverse transform into
+//! `Env::coeff_out`.
 
-pub const DFT_OPS: &[OpInfo] = &[];
+use crate::env::{Env, Kind, Slot};
+use crate::ops::{Fam, HalBackend, OpCase, OpInfo};
+use poulpy_hal::{
+    api::*,
+    layouts::{DataViewMut, VecZnx, VecZnxBig, VecZnxDft, ZnxInfos, ZnxView, ZnxViewMut},
+};
+use pzv_common::model::{VClass, gen_column};
 
-pub fn adapt_dft(_c: &mut OpCase) {}
+macro_rules! op {
+    ($n:expr, $s:expr) => {
+        OpInfo { name: $n, fam: Fam::Dft, scratch: $s, min_log_n: 3 }
+    };
+}
 
-pub fn exec_dft<B: HalBackend>(_env: &mut Env<B>, c: &OpCase) {
-    panic!("harness: op {} not wired", c.op);
+pub const DFT_OPS: &[OpInfo] = &[
+    op!("vec_znx_dft_apply", false),
+    op!("vec_znx_idft_apply", true),
+    op!("vec_znx_idft_apply_tmpa", false),
+    op!("vec_znx_idft_apply_consume", false),
+    op!("vec_znx_dft_add_into", false),
+    op!("vec_znx_dft_add_assign", false),
+    op!("vec_znx_dft_add_scaled_assign", false),
+    op!("vec_znx_dft_sub", false),
+    op!("vec_znx_dft_sub_assign", false),
+    op!("vec_znx_dft_sub_negate_assign", false),
+    op!("vec_znx_dft_copy", false),
+    op!("vec_znx_dft_zero", false),
+    op!("svp_prepare", false),
+    op!("svp_apply_dft", false),
+    op!("svp_apply_dft_to_dft", false),
+    op!("svp_apply_dft_to_dft_assign", false),
+    op!("vmp_prepare", true),
+    op!("vmp_apply_dft", true),
+    op!("vmp_apply_dft_to_dft", true),
+    op!("vmp_zero", false),
+    op!("cnv_prepare_left", true),
+    op!("cnv_prepare_right", true),
+    op!("cnv_prepare_self", true),
+    op!("cnv_apply_dft", true),
+    op!("cnv_pairwise_apply_dft", true),
+    op!("cnv_by_const_apply", true),
+];
+
+fn ceil_log2(x: usize) -> u32 {
+    if x <= 1 { 0 } else { usize::BITS - (x - 1).leading_zeros() }
+}
+
+/// number of integer products accumulated per output coefficient (besides the N of the ring)
+pub fn product_terms(c: &OpCase) -> Option<usize> {
+    let op = c.op.as_str();
+    if op.starts_with("svp") {
+        Some(1)
+    } else if op.starts_with("vmp") && op != "vmp_zero" {
+        Some((c.x[0] as usize).min(c.size[1] as usize).max(1) * c.cols[1] as usize)
+    } else if op.starts_with("cnv") {
+        let t = (c.size[1].min(c.size[2]) as usize).max(1);
+        Some(if op == "cnv_pairwise_apply_dft" { 4 * t } else { t })
+    } else {
+        None
+    }
+}
+
+/// largest digit width (bits incl. sign) for which every value class keeps the
+/// exact result inside the FFT64 exactness domain  M*(8 log2 N + 8) < 2^51
+pub fn fft_safe_bits(c: &OpCase) -> u8 {
+    let log_n = c.log_n as u32;
+    let guard = ceil_log2(8 * log_n as usize + 8);
+    match product_terms(c) {
+        Some(t) => {
+            // N * t * 2^(2(b-1)) * guard < 2^51
+            let budget = 51i64 - log_n as i64 - ceil_log2(t) as i64 - guard as i64 - 1;
+            ((budget / 2) + 1).clamp(1, 50) as u8
+        }
+        None => {
+            // linear: at most 2 summands (scaled assign: 2) of magnitude 2^(b-1)
+            (51i64 - guard as i64 - 2).clamp(1, 50) as u8
+        }
+    }
+}
+
+pub fn ntt_safe_bits(c: &OpCase) -> u8 {
+    match product_terms(c) {
+        Some(t) => {
+            let budget = 116i64 - c.log_n as i64 - ceil_log2(t) as i64;
+            ((budget / 2) + 1).clamp(1, 52) as u8
+        }
+        None => 58,
+    }
+}
+
+pub fn adapt_dft(c: &mut OpCase) {
+    let op = c.op.clone();
+    let op = op.as_str();
+    c.log_n = c.log_n.clamp(3, 16);
+    for i in 0..3 {
+        c.cols[i] = c.cols[i].clamp(1, 3);
+        c.size[i] = c.size[i].clamp(1, 6);
+        c.slack[i] = c.slack[i].min(2);
+    }
+    // prepared containers have no capacity slack
+    if op.starts_with("vmp") || op.starts_with("cnv") || op.starts_with("svp") {
+        c.slack[1] = 0;
+        c.slack[2] = 0;
+    }
+    if op == "vec_znx_idft_apply_consume" {
+        c.slack = [0; 3];
+        c.cols[0] = c.cols[1];
+        c.size[0] = c.size[1];
+    }
+    match op {
+        "vec_znx_dft_apply" | "vec_znx_dft_copy" => {
+            c.x[0] = 1 + c.x[0].wrapping_sub(1) % 4; // step
+            c.x[1] %= c.x[0] + 3; // offset (may point past the last limb)
+        }
+        "vec_znx_dft_add_scaled_assign" => {
+            if c.p.unsigned_abs() > 4 {
+                c.p = c.p.rem_euclid(9) - 4;
+            }
+            // for positive scales the documented rule and the natural one coincide only when `a` is not longer than `res`
+            if c.p > 0 {
+                c.size[1] = c.size[1].min(c.size[0]);
+            }
+        }
+        "vmp_prepare" | "vmp_apply_dft" | "vmp_apply_dft_to_dft" | "vmp_zero" => {
+            c.x[0] = 1 + c.x[0].wrapping_sub(1) % 6; // rows
+            c.x[3] %= c.size[2] as u32 + 2; // limb_offset
+            if op != "vmp_apply_dft_to_dft" {
+                c.x[3] = 0;
+            }
+            // res has cols_out columns, a has cols_in columns
+        }
+        "cnv_apply_dft" | "cnv_pairwise_apply_dft" | "cnv_by_const_apply" | "cnv_prepare_left" | "cnv_prepare_right" | "cnv_prepare_self" => {
+            c.x[0] %= c.size[1] as u32 + c.size[2] as u32 + 1; // cnv_offset
+            if op == "cnv_pairwise_apply_dft" {
+                // both prepared operands share the column count
+                c.cols[2] = c.cols[1];
+                c.x[1] %= c.cols[1] as u32;
+                c.x[2] %= c.cols[1] as u32;
+            }
+            // mask: !0 << t with t < digit width (what msb_mask_bottom_limb produces); fixed after the
+            // digit width is final, see below
+            if c.q % 3 == 0 {
+                c.p = !0i64;
+            }
+        }
+        _ => {}
+    }
+    for i in 0..3 {
+        c.col[i] %= c.cols[i];
+    }
+    // large rings: keep the exact oracle affordable with one structured operand
+    if c.log_n > 9 && product_terms(c).is_some() {
+        c.cls[2] = VClass::MonoEach;
+        if op == "cnv_prepare_self" {
+            c.cls[1] = VClass::MonoEach;
+        }
+    }
+    if c.log_n > 12 {
+        for i in 0..3 {
+            c.size[i] = c.size[i].min(3);
+        }
+        c.x[0] = if op.starts_with("vmp") { c.x[0].min(3) } else { c.x[0] };
+    }
+    let maxb = if c.wide { ntt_safe_bits(c) } else { fft_safe_bits(c) };
+    c.b = c.b.clamp(1, maxb.max(1));
+    c.b2 = c.b;
+    if op.starts_with("cnv") && c.p != !0i64 {
+        let t = c.p.trailing_zeros();
+        let is_mask = c.p != 0 && c.p == (!0i64) << t && (t as u8) < c.b;
+        if !is_mask {
+            c.p = (!0i64) << (c.p.rem_euclid(c.b as i64) as u32);
+        }
+    }
+    for i in 0..3 {
+        c.cls[i] = match c.cls[i] {
+            VClass::Unnorm(_) | VClass::FullI64 | VClass::CarryRipple => VClass::ExtremeMixed,
+            x => x,
+        };
+    }
+}
+
+// ---------------------------------------------------------------------------
+// helpers on Env
+// ---------------------------------------------------------------------------
+
+fn alloc_znx(n: usize, vals: &[Vec<i64>]) -> VecZnx<Vec<u8>> {
+    let mut v = VecZnx::alloc(n, 1, vals.len().max(1));
+    for (j, l) in vals.iter().enumerate() {
+        v.at_mut(0, j).copy_from_slice(l);
+    }
+    v
+}
+
+/// transform-domain input: every column `cols_filled` gets valid data (forward transform of a
+/// generated coefficient vector); everything else is fill-dependent garbage.
+#[allow(clippy::too_many_arguments)]
+fn in_dft<B: HalBackend>(env: &mut Env<B>, label: &'static str, n: usize, cols: usize, size: usize, slack: usize, col: usize, fill_cols: &[usize], class: VClass, b: usize) -> Slot {
+    let sb = env.sb(Kind::Dft);
+    let mut s = env.mk(label, Kind::Dft, n, cols, size, slack, sb, 1, 1);
+    let g = env.next_seed(true);
+    s.buf.fill_garbage(g);
+    let mut src = vec![vec![]; cols];
+    for &ci in fill_cols {
+        let seed = env.next_seed(false);
+        let vals = gen_column(class, b, n, size, seed);
+        let tmp = alloc_znx(n, &vals);
+        env.module.vec_znx_dft_apply(1, 0, &mut s.dft_mut::<B>(), ci, &tmp, 0);
+        src[ci] = vals;
+    }
+    env.srcs.push((label, src));
+    s.col = col;
+    s.snapshot();
+    s
+}
+
+/// brings column `col` (limbs 0..size) of a transform-domain slot back to coefficients
+fn coeff_of_dft<B: HalBackend>(env: &Env<B>, s: &Slot, col: usize) -> Vec<Vec<i128>> {
+    let m = env.module;
+    let size = s.size;
+    let mut tmp = m.vec_znx_dft_alloc(1, size);
+    {
+        let pb = s.poly_bytes();
+        let dst: &mut [u8] = tmp.data_mut().as_mut();
+        for j in 0..size {
+            let o = s.off(col, j);
+            dst[j * pb..(j + 1) * pb].copy_from_slice(&s.buf.data()[o..o + pb]);
+        }
+    }
+    let big = m.vec_znx_idft_apply_consume(tmp);
+    big_to_i128::<B, _>(&big, 0)
+}
+
+fn big_to_i128<B: HalBackend, D: poulpy_hal::layouts::DataRef>(big: &VecZnxBig<D, B>, col: usize) -> Vec<Vec<i128>> {
+    let n = big.n();
+    let sb = B::size_of_scalar_big();
+    (0..big.size())
+        .map(|j| {
+            let sl = big.at(col, j);
+            let bytes: &[u8] = unsafe { std::slice::from_raw_parts(sl.as_ptr() as *const u8, n * sb) };
+            if sb == 8 {
+                bytes.chunks_exact(8).map(|c| i64::from_le_bytes(c.try_into().unwrap()) as i128).collect()
+            } else {
+                bytes.chunks_exact(16).map(|c| i128::from_le_bytes(c.try_into().unwrap())).collect()
+            }
+        })
+        .collect()
+}
+
+fn slot_big_col(s: &Slot) -> Vec<Vec<i128>> {
+    (0..s.size).map(|j| s.i128_at(s.buf.data(), s.col, j)).collect()
+}
+
+pub fn exec_dft<B: HalBackend>(env: &mut Env<B>, c: &OpCase) {
+    let m = env.module;
+    let n = c.n();
+    let b = c.bb();
+    let (rc, rs, rk, ri) = c.shape(0);
+    let (ac, as_, ak, ai) = c.shape(1);
+    let (bc, bs, bk, bi) = c.shape(2);
+    let [c0, c1, c2] = c.cls;
+    let op = c.op.as_str();
+    match op {
+        "vec_znx_dft_apply" => {
+            let mut r = env.out("res", Kind::Dft, n, rc, rs, rk, ri);
+            let a = env.in_znx("a", n, ac, as_, ak, ai, c1, b);
+            m.vec_znx_dft_apply(c.x[0] as usize, c.x[1] as usize, &mut r.dft_mut::<B>(), ri, &a.znx(), ai);
+            env.coeff_out = Some(coeff_of_dft(env, &r, ri));
+            env.push(r);
+            env.push(a);
+        }
+        "vec_znx_idft_apply" => {
+            let mut r = env.out("res", Kind::Big, n, rc, rs, rk, ri);
+            let a = in_dft(env, "a", n, ac, as_, ak, ai, &[ai], c1, b);
+            let mut s = env.scratch(m.vec_znx_idft_apply_tmp_bytes());
+            m.vec_znx_idft_apply(&mut r.big_mut::<B>(), ri, &a.dft::<B>(), ai, s.scratch::<B>());
+            env.coeff_out = Some(slot_big_col(&r));
+            env.push(r);
+            env.push(a);
+            env.push(s);
+        }
+        "vec_znx_idft_apply_tmpa" => {
+            let mut r = env.out("res", Kind::Big, n, rc, rs, rk, ri);
+            let mut a = in_dft(env, "a", n, ac, as_, ak, ai, &[ai], c1, b);
+            // `a` is used as temporary storage: its selected column is unspecified afterwards
+            a.writable = true;
+            a.declare_col(ai, 0..as_);
+            m.vec_znx_idft_apply_tmpa(&mut r.big_mut::<B>(), ri, &mut a.dft_mut::<B>(), ai);
+            env.coeff_out = Some(slot_big_col(&r));
+            env.push(r);
+            env.push(a);
+        }
+        "vec_znx_idft_apply_consume" => {
+            let all: Vec<usize> = (0..ac).collect();
+            let mut a = in_dft(env, "a", n, ac, as_, 0, ai, &all, c1, b);
+            a.writable = true;
+            a.declare_all();
+            let coeff = {
+                let d: VecZnxDft<&mut [u8], B> = a.dft_mut::<B>();
+                let big = m.vec_znx_idft_apply_consume(d);
+                big_to_i128::<B, _>(&big, ai)
+            };
+            env.coeff_out = Some(coeff);
+            env.push(a);
+        }
+        "vec_znx_dft_add_into" | "vec_znx_dft_sub" => {
+            let mut r = env.out("res", Kind::Dft, n, rc, rs, rk, ri);
+            let a = in_dft(env, "a", n, ac, as_, ak, ai, &[ai], c1, b);
+            let bb = in_dft(env, "b", n, bc, bs, bk, bi, &[bi], c2, b);
+            if op == "vec_znx_dft_add_into" {
+                m.vec_znx_dft_add_into(&mut r.dft_mut::<B>(), ri, &a.dft::<B>(), ai, &bb.dft::<B>(), bi);
+            } else {
+                m.vec_znx_dft_sub(&mut r.dft_mut::<B>(), ri, &a.dft::<B>(), ai, &bb.dft::<B>(), bi);
+            }
+            env.coeff_out = Some(coeff_of_dft(env, &r, ri));
+            env.push(r);
+            env.push(a);
+            env.push(bb);
+        }
+        "vec_znx_dft_add_assign" | "vec_znx_dft_sub_assign" | "vec_znx_dft_sub_negate_assign" | "vec_znx_dft_add_scaled_assign" => {
+            let mut r = in_dft(env, "res", n, rc, rs, rk, ri, &[ri], c0, b);
+            r.writable = true;
+            r.declare_col(ri, 0..rs);
+            let a = in_dft(env, "a", n, ac, as_, ak, ai, &[ai], c1, b);
+            match op {
+                "vec_znx_dft_add_assign" => m.vec_znx_dft_add_assign(&mut r.dft_mut::<B>(), ri, &a.dft::<B>(), ai),
+                "vec_znx_dft_sub_assign" => m.vec_znx_dft_sub_assign(&mut r.dft_mut::<B>(), ri, &a.dft::<B>(), ai),
+                "vec_znx_dft_sub_negate_assign" => m.vec_znx_dft_sub_negate_assign(&mut r.dft_mut::<B>(), ri, &a.dft::<B>(), ai),
+                _ => m.vec_znx_dft_add_scaled_assign(&mut r.dft_mut::<B>(), ri, &a.dft::<B>(), ai, c.p),
+            }
+            env.coeff_out = Some(coeff_of_dft(env, &r, ri));
+            env.push(r);
+            env.push(a);
+        }
+        "vec_znx_dft_copy" => {
+            let mut r = env.out("res", Kind::Dft, n, rc, rs, rk, ri);
+            let a = in_dft(env, "a", n, ac, as_, ak, ai, &[ai], c1, b);
+            m.vec_znx_dft_copy(c.x[0] as usize, c.x[1] as usize, &mut r.dft_mut::<B>(), ri, &a.dft::<B>(), ai);
+            env.coeff_out = Some(coeff_of_dft(env, &r, ri));
+            env.push(r);
+            env.push(a);
+        }
+        "vec_znx_dft_zero" => {
+            let mut r = env.out("res", Kind::Dft, n, rc, rs, rk, ri);
+            m.vec_znx_dft_zero(&mut r.dft_mut::<B>(), ri);
+            env.coeff_out = Some(coeff_of_dft(env, &r, ri));
+            env.push(r);
+        }
+        "svp_prepare" | "svp_apply_dft" => {
+            // prepare a scalar, apply it to a coefficient vector
+            let mut p = env.out("svp", Kind::Svp, n, ac, 1, 0, ai);
+            let a = env.in_scalar("a", n, ac, ai, c1, b);
+            m.svp_prepare(&mut p.svp_mut::<B>(), ai, &a.scalar(), ai);
+            let mut r = env.out("res", Kind::Dft, n, rc, rs, rk, ri);
+            let bb = if op == "svp_prepare" {
+                // multiply by the constant polynomial 1 on one limb: the result is the scalar itself
+                let mut s = env.in_znx("b", n, bc, 1, 0, bi, VClass::Zero, b);
+                let mut one = vec![0i64; n];
+                one[0] = 1;
+                s.write_i64(bi, 0, &one);
+                s.snapshot();
+                s
+            } else {
+                env.in_znx("b", n, bc, bs, bk, bi, c2, b)
+            };
+            m.svp_apply_dft(&mut r.dft_mut::<B>(), ri, &p.svp::<B>(), ai, &bb.znx(), bi);
+            env.coeff_out = Some(coeff_of_dft(env, &r, ri));
+            if op == "svp_apply_dft" {
+                // only `res` is the output under audit; the prepared scalar is an input here
+                p.writable = false;
+                p.declared.clear();
+                p.snapshot();
+            } else {
+                r.writable = true;
+            }
+            env.push(r);
+            env.push(p);
+            env.push(a);
+            env.push(bb);
+        }
+        "svp_apply_dft_to_dft" | "svp_apply_dft_to_dft_assign" => {
+            let mut p = env.out("svp", Kind::Svp, n, ac, 1, 0, ai);
+            let a = env.in_scalar("a", n, ac, ai, c1, b);
+            m.svp_prepare(&mut p.svp_mut::<B>(), ai, &a.scalar(), ai);
+            p.writable = false;
+            p.declared.clear();
+            p.snapshot();
+            if op == "svp_apply_dft_to_dft" {
+                let mut r = env.out("res", Kind::Dft, n, rc, rs, rk, ri);
+                let bb = in_dft(env, "b", n, bc, bs, bk, bi, &[bi], c2, b);
+                m.svp_apply_dft_to_dft(&mut r.dft_mut::<B>(), ri, &p.svp::<B>(), ai, &bb.dft::<B>(), bi);
+                env.coeff_out = Some(coeff_of_dft(env, &r, ri));
+                env.push(r);
+                env.push(bb);
+            } else {
+                let mut r = in_dft(env, "res", n, rc, rs, rk, ri, &[ri], c2, b);
+                r.writable = true;
+                r.declare_col(ri, 0..rs);
+                m.svp_apply_dft_to_dft_assign(&mut r.dft_mut::<B>(), ri, &p.svp::<B>(), ai);
+                env.coeff_out = Some(coeff_of_dft(env, &r, ri));
+                env.push(r);
+            }
+            env.push(p);
+            env.push(a);
+        }
+        "vmp_prepare" | "vmp_apply_dft" | "vmp_apply_dft_to_dft" | "vmp_zero" => {
+            // res: cols_out = rc columns, a: cols_in = ac columns, matrix rows x ac x rc x bs
+            let rows = c.x[0] as usize;
+            let (cols_in, cols_out, msize) = (ac, rc, bs);
+            let mat = env.in_mat("mat", n, rows, cols_in, cols_out, msize, c2, b);
+            let mut pm = env.out_prepared("pmat", Kind::Vmp, n, rows, cols_in, cols_out, msize);
+            if op == "vmp_zero" {
+                m.vmp_zero(&mut pm.vmp_mut::<B>());
+            } else {
+                let mut s = env.scratch(m.vmp_prepare_tmp_bytes(rows, cols_in, cols_out, msize));
+                m.vmp_prepare(&mut pm.vmp_mut::<B>(), &mat.mat(), s.scratch::<B>());
+                if op == "vmp_prepare" {
+                    env.push(s);
+                }
+            }
+            let under_test_is_prepare = op == "vmp_prepare" || op == "vmp_zero";
+            if !under_test_is_prepare {
+                pm.writable = false;
+                pm.declared.clear();
+                pm.snapshot();
+            }
+            // result container: every column is written
+            let mut r = env.out("res", Kind::Dft, n, cols_out, rs, rk, 0);
+            r.declared.clear();
+            for co in 0..cols_out {
+                r.declare_col(co, 0..rs);
+            }
+            let all_in: Vec<usize> = (0..cols_in).collect();
+            let mut coeff: Vec<Vec<i128>> = vec![];
+            if op == "vmp_apply_dft_to_dft" {
+                let a = in_dft(env, "a", n, cols_in, as_, ak, 0, &all_in, c1, b);
+                let q = m.vmp_apply_dft_to_dft_tmp_bytes(rs, as_, rows, cols_in, cols_out, msize);
+                let mut s = env.scratch(q);
+                m.vmp_apply_dft_to_dft(&mut r.dft_mut::<B>(), &a.dft::<B>(), &pm.vmp::<B>(), c.x[3] as usize, s.scratch::<B>());
+                env.push(a);
+                env.push(s);
+            } else {
+                // vmp_apply_dft (also used to observe vmp_prepare / vmp_zero)
+                let mut a = env.in_znx("a", n, cols_in, as_, ak, 0, c1, b);
+                let mut src = vec![vec![]; cols_in];
+                for ci in 0..cols_in {
+                    let seed = env.next_seed(false);
+                    let vals = gen_column(c1, b, n, as_, seed);
+                    for (j, l) in vals.iter().enumerate() {
+                        a.write_i64(ci, j, l);
+                    }
+                    src[ci] = vals;
+                }
+                a.snapshot();
+                env.srcs.push(("a", src));
+                let q = m.vmp_apply_dft_tmp_bytes(rs, as_, rows, cols_in, cols_out, msize);
+                let mut s = if under_test_is_prepare { env.aux_scratch(q) } else { env.scratch(q) };
+                m.vmp_apply_dft(&mut r.dft_mut::<B>(), &a.znx(), &pm.vmp::<B>(), s.scratch::<B>());
+                env.push(a);
+                if !under_test_is_prepare {
+                    env.push(s);
+                }
+            }
+            // all output columns, concatenated column-major: coeff[co*rs + l]
+            for co in 0..cols_out {
+                coeff.extend(coeff_of_dft(env, &r, co));
+            }
+            env.coeff_out = Some(coeff);
+            if under_test_is_prepare {
+                // the audited output is the prepared matrix; `res` is only the observation device
+                r.writable = true;
+            }
+            env.push(r);
+            env.push(pm);
+            env.push(mat);
+        }
+        "cnv_prepare_left" | "cnv_prepare_right" | "cnv_prepare_self" | "cnv_apply_dft" | "cnv_pairwise_apply_dft" => {
+            // prepared operands: left from `a` (ac columns, size as_), right from `b` (bc columns, size bs)
+            let under_prepare = op.starts_with("cnv_prepare");
+            let selfp = op == "cnv_prepare_self";
+            let a = fill_all_cols(env, "a", n, ac, as_, c1, b);
+            let bbs = if selfp { None } else { Some(fill_all_cols(env, "b", n, bc, bs, c2, b)) };
+            // prepared sizes: q selects a prepared size different from the source size
+            let pl_size = if under_prepare { (as_ + (c.q as usize % 3)).saturating_sub(1).max(1) } else { as_ };
+            let pr_size = if under_prepare { if selfp { pl_size } else { (bs + (c.q as usize / 3 % 3)).saturating_sub(1).max(1) } } else { bs };
+            let mut pl = env.out_prepared("left", Kind::CnvL, n, 1, ac, 1, pl_size);
+            let rcols = if selfp { ac } else { bc };
+            let mut pr = env.out_prepared("right", Kind::CnvR, n, 1, rcols, 1, pr_size);
+            let mask = c.p;
+            if selfp {
+                let mut s = env.scratch(m.cnv_prepare_self_tmp_bytes(pl_size, as_));
+                m.cnv_prepare_self(&mut pl.cnvl_mut::<B>(), &mut pr.cnvr_mut::<B>(), &a.znx(), mask, s.scratch::<B>());
+                env.push(s);
+            } else {
+                let ql = m.cnv_prepare_left_tmp_bytes(pl_size, as_);
+                let qr = m.cnv_prepare_right_tmp_bytes(pr_size, bs);
+                let b_ref = bbs.as_ref().unwrap();
+                match op {
+                    "cnv_prepare_left" => {
+                        let mut s = env.scratch(ql);
+                        m.cnv_prepare_left(&mut pl.cnvl_mut::<B>(), &a.znx(), mask, s.scratch::<B>());
+                        env.push(s);
+                        let mut s2 = env.aux_scratch(qr);
+                        m.cnv_prepare_right(&mut pr.cnvr_mut::<B>(), &b_ref.znx(), !0i64, s2.scratch::<B>());
+                    }
+                    "cnv_prepare_right" => {
+                        let mut s = env.scratch(qr);
+                        m.cnv_prepare_right(&mut pr.cnvr_mut::<B>(), &b_ref.znx(), mask, s.scratch::<B>());
+                        env.push(s);
+                        let mut s2 = env.aux_scratch(ql);
+                        m.cnv_prepare_left(&mut pl.cnvl_mut::<B>(), &a.znx(), !0i64, s2.scratch::<B>());
+                    }
+                    _ => {
+                        let mut s2 = env.aux_scratch(ql.max(qr));
+                        m.cnv_prepare_left(&mut pl.cnvl_mut::<B>(), &a.znx(), mask, s2.scratch::<B>());
+                        m.cnv_prepare_right(&mut pr.cnvr_mut::<B>(), &b_ref.znx(), mask, s2.scratch::<B>());
+                    }
+                }
+            }
+            if !under_prepare {
+                for p in [&mut pl, &mut pr] {
+                    p.writable = false;
+                    p.declared.clear();
+                    p.snapshot();
+                }
+            }
+            let mut r = env.out("res", Kind::Dft, n, rc, rs, rk, ri);
+            let off = c.x[0] as usize;
+            // the observation (for prepare ops) / the op under test
+            if op == "cnv_pairwise_apply_dft" {
+                let q = m.cnv_pairwise_apply_dft_tmp_bytes(off, rs, pl_size, pr_size);
+                let mut s = env.scratch(q);
+                m.cnv_pairwise_apply_dft(off, &mut r.dft_mut::<B>(), ri, &pl.cnvl::<B>(), &pr.cnvr::<B>(), c.x[1] as usize, c.x[2] as usize, s.scratch::<B>());
+                env.push(s);
+            } else {
+                let q = m.cnv_apply_dft_tmp_bytes(off, rs, pl_size, pr_size);
+                let bcol = if selfp { ai } else { bi };
+                if under_prepare {
+                    let mut s = env.aux_scratch(q);
+                    m.cnv_apply_dft(off, &mut r.dft_mut::<B>(), ri, &pl.cnvl::<B>(), ai, &pr.cnvr::<B>(), bcol, s.scratch::<B>());
+                } else {
+                    let mut s = env.scratch(q);
+                    m.cnv_apply_dft(off, &mut r.dft_mut::<B>(), ri, &pl.cnvl::<B>(), ai, &pr.cnvr::<B>(), bcol, s.scratch::<B>());
+                    env.push(s);
+                }
+            }
+            env.coeff_out = Some(coeff_of_dft(env, &r, ri));
+            env.aux.push(pl_size as u64);
+            env.aux.push(pr_size as u64);
+            env.push(r);
+            env.push(pl);
+            env.push(pr);
+            env.push(a);
+            if let Some(bb) = bbs {
+                env.push(bb);
+            }
+        }
+        "cnv_by_const_apply" => {
+            let mut r = env.out("res", Kind::Big, n, rc, rs, rk, ri);
+            let a = env.in_znx("a", n, ac, as_, ak, ai, c1, b);
+            let seed = env.next_seed(false);
+            let cst: Vec<i64> = gen_column(c2, b, 1, bs, seed).iter().map(|l| l[0]).collect();
+            env.srcs.push(("const", vec![vec![cst.clone()]]));
+            let off = c.x[0] as usize;
+            let mut s = env.scratch(m.cnv_by_const_apply_tmp_bytes(off, rs, as_, bs));
+            m.cnv_by_const_apply(off, &mut r.big_mut::<B>(), ri, &a.znx(), ai, &cst, s.scratch::<B>());
+            env.coeff_out = Some(slot_big_col(&r));
+            env.push(r);
+            env.push(a);
+            env.push(s);
+        }
+        _ => panic!("harness: op {op} not wired"),
+    }
+}
+
+/// coefficient-domain input whose every column holds class data (sources recorded)
+fn fill_all_cols<B: HalBackend>(env: &mut Env<B>, label: &'static str, n: usize, cols: usize, size: usize, class: VClass, b: usize) -> Slot {
+    let mut s = env.in_znx(label, n, cols, size, 0, 0, class, b);
+    let mut src = vec![vec![]; cols];
+    for ci in 0..cols {
+        let seed = env.next_seed(false);
+        let vals = gen_column(class, b, n, size, seed);
+        for (j, l) in vals.iter().enumerate() {
+            s.write_i64(ci, j, l);
+        }
+        src[ci] = vals;
+    }
+    s.snapshot();
+    env.srcs.push((label, src));
+    s
 }
